@@ -131,6 +131,11 @@ func checkC13(c *Case) (*Violation, caseInfo) {
 		path := "/c13/" + shortHash(c.HTML) + "/page.html"
 		srvPages.Store(path, c.HTML)
 		addr := server.URL + path
+		if h := shortHash(c.HTML); h[len(h)-1]%2 == 0 {
+			// every other page is addressed with a fragment
+			addr += "#section-2"
+			info.Classes = append(info.Classes, "applyforurl-with-fragment")
+		}
 		other := OptSpec{URL: c.Opts.URL, Algo: 1}.Build()
 		viaURL := guarded(0, func() (*distiller.Result, error) { return distiller.ApplyForURL(addr, 10*time.Second, other) })
 		_, viaReader := applyHTML(c.HTML, OptSpec{URL: addr, Algo: 1})
